@@ -90,6 +90,8 @@ type Engine struct {
 	// with key nondeterministic-observation when HistHash agrees).
 	Deterministic bool
 	Extra         func() map[string]any // engine-specific evidence fields
+	// Invariant is checked after every execution (process-wide state that no record may change).
+	Invariant func() (key, detail string)
 	// Simplify returns one-step simplifications of a Record (each a fresh Record). Used by
 	// the Record-level minimiser that runs after rapid's bitstream shrinking.
 	Simplify func(rec any) []any
@@ -325,6 +327,11 @@ func (s *state) run(rec any, counting bool) (*Outcome, *Violation) {
 	s.curRec.Store(rec)
 	out := s.eng.Exec(rec)
 	s.execStart.Store(0)
+	if s.eng.Invariant != nil {
+		if key, detail := s.eng.Invariant(); key != "" {
+			out.Violations = append(out.Violations, Violation{Property: s.eng.Property, Key: key, Detail: detail})
+		}
+	}
 	if rep, ok := s.raceGrowth(); ok {
 		key, harnessOnly := raceKey(rep)
 		if harnessOnly {
